@@ -301,7 +301,7 @@ class Ctx:
         for k in self.kf:
             if k.get("status") != "open" or k["property"] != self.pid:
                 continue
-            if k.get("signature") and k["signature"] == sig:
+            if (k.get("signature") and k["signature"] == sig) or (sig and sig in k.get("signatures", [])):
                 line = "KNOWN-FINDING: property=%s %s" % (self.pid, k["what"])
                 if line not in self.known:
                     self.known.append(line)
